@@ -267,6 +267,30 @@ def run(ctx: Ctx):
                "the declared priority is stored unconditionally or under a guard that accepts 1, 500 and 1000" if ok else
                f"{why}: the task silently keeps the default 500 and competes as a middle-priority task",
                key="R09.5|_apply_property_attributes|priority range")
+    # ---------------------------------------------------------------- R09.5 (cont.) a priority outside 1..1000 does not reach the model:
+    # the scheduler's sort key reads `priority or 500`, so 0 -- the value somebody writes for "lowest of all" -- would compete as 500
+    tp = repo.func("TJPTransformer.task_priority")
+    res_tp = local_resolver(tp.node)
+    pname = None
+    for a in own_nodes(tp):
+        if isinstance(a, (ast.Assign, ast.AnnAssign)) and a.value is not None and any(isinstance(c_, ast.Call) and norm(c_.func) == "int" for c_ in ast.walk(a.value)):
+            t_ = a.targets[0] if isinstance(a, ast.Assign) else a.target
+            if isinstance(t_, ast.Name):
+                pname = t_.id
+    rejects = [i for i in own_nodes(tp) if isinstance(i, ast.If) and any(isinstance(x, ast.Raise) for x in i.body)]
+    verdict = {}
+    for pt in (0, 1, 500, 1000, 1001):
+        v = None
+        for i in rejects:
+            v_ = eval_points(i.test, [(lambda e: isinstance(e, ast.Name) and e.id == pname, pt)]) if pname else None
+            v = v_ if v is None else (v or v_)
+        verdict[pt] = v
+    ok = verdict[0] is True and verdict[1001] is True and verdict[1] is False and verdict[500] is False and verdict[1000] is False
+    ctx.ob("R09.5", f"{tp.qual}: rejects {[p_ for p_, v_ in verdict.items() if v_]} of the probes 0, 1, 500, 1000, 1001", tp, ok,
+           "0 and 1001 are rejected, 1, 500 and 1000 pass" if ok else
+           "a priority outside 1..1000 is handed on: `priority 0` is read as `0 or 500` by the sort key, so the task meant to be the very last "
+           "competes in the middle of the queue",
+           key="R09.5|TJPTransformer.task_priority|range rejected")
     # ---------------------------------------------------------------- R09.6 task identity (terminal test of the backward pass)
     from .common import local_id_identity_rule
     local_id_identity_rule(ctx, "R09.6", ("core/project.py", "core/task_scenario.py", "core/task.py"),
